@@ -5,6 +5,7 @@ import (
 	"go/constant"
 	"go/token"
 	"go/types"
+	"sort"
 	"strings"
 
 	"golang.org/x/tools/go/ssa"
@@ -1671,4 +1672,1208 @@ func ruleMatcherFreshVerdict(c *Ctx, rule string) {
 	if n == 0 {
 		c.unresolvedRoot("range loops of (*message).search")
 	}
+}
+
+// ruleQuotedScanner: the decoder's quoted-string scanner and the encoder's
+// Quoted agree on escaping: the encoder writes '"' and '\\' inside a quoted
+// string as a backslash followed by the byte, so in Decoder.Quoted a byte that
+// was read *after a backslash* is data — it must never reach the test that
+// recognises the closing quote. Every comparison of a scanned byte with '"'
+// (and with '\\') has as its operand a single direct result of readByte, not a
+// merge (phi) that also carries the escaped read.
+func ruleQuotedScanner(c *Ctx, rule string) {
+	p := c.P
+	fn := p.Func("internal/imapwire", "Decoder", "Quoted")
+	if fn == nil {
+		c.unresolvedRoot("(*Decoder).Quoted")
+		return
+	}
+	n := 0
+	for _, g := range helperClosure(fn, 1) {
+		allInstrs(g, func(i ssa.Instruction) {
+			bo, ok := i.(*ssa.BinOp)
+			if !ok || (bo.Op != token.EQL && bo.Op != token.NEQ) {
+				return
+			}
+			k, ok := constInt(bo.Y)
+			if !ok || (k != '"' && k != '\\') {
+				return
+			}
+			// operand: how many distinct readByte results can it be?
+			srcs := map[ssa.Value]bool{}
+			seen := map[ssa.Value]bool{}
+			var rec func(v ssa.Value)
+			rec = func(v ssa.Value) {
+				if seen[v] {
+					return
+				}
+				seen[v] = true
+				switch x := v.(type) {
+				case *ssa.Phi:
+					for _, e := range x.Edges {
+						rec(e)
+					}
+				case *ssa.Extract:
+					if call, ok := x.Tuple.(*ssa.Call); ok && callKey(call) == "(*Decoder).readByte" {
+						srcs[call] = true
+					}
+				case *ssa.UnOp:
+					if al, ok := x.X.(*ssa.Alloc); ok {
+						for _, ref := range *al.Referrers() {
+							if st, ok := ref.(*ssa.Store); ok && st.Addr == ssa.Value(al) {
+								rec(st.Val)
+							}
+						}
+					}
+				}
+			}
+			rec(bo.X)
+			if len(srcs) == 0 {
+				return
+			}
+			n++
+			what := "closing quote"
+			if k == '\\' {
+				what = "escape"
+			}
+			c.check(len(srcs) == 1, rule, fmt.Sprintf("%s: %s test sees unescaped bytes only#%d", fnKey(g), what, n), bo.Pos(), "the tested byte is the direct result of one readByte",
+				fmt.Sprintf("the %s test is applied to a value that may be the byte read after a backslash (%d reads merge into it): an escaped quote ends the string early and the rest of the argument is parsed as the next token", what, len(srcs)))
+		})
+	}
+	if n == 0 {
+		c.unresolvedRoot("terminator/escape tests of Decoder.Quoted")
+	}
+}
+
+// ruleNoNarrowingOnEncode: C02.k / C03.l. A numeric field of a public option
+// or data structure is put on the wire at its full width: no conversion of a
+// value loaded from such a field to a narrower integer type in the encoders
+// (uint32(partial.Offset) silently turns offset 2^32+10 into 10).
+func ruleNoNarrowingOnEncode(c *Ctx, rule string, pkgs ...string) {
+	p := c.P
+	n := 0
+	width := func(t types.Type) int {
+		bt, ok := t.Underlying().(*types.Basic)
+		if !ok || bt.Info()&types.IsInteger == 0 {
+			return 0
+		}
+		switch bt.Kind() {
+		case types.Int8, types.Uint8:
+			return 8
+		case types.Int16, types.Uint16:
+			return 16
+		case types.Int32, types.Uint32:
+			return 32
+		case types.Int64, types.Uint64:
+			return 64
+		}
+		return 32 // int, uint: at least 32
+	}
+	for _, fn := range p.SrcFuncs(pkgs...) {
+		allInstrs(fn, func(i ssa.Instruction) {
+			cv, ok := i.(*ssa.Convert)
+			if !ok {
+				return
+			}
+			from, to := width(cv.X.Type()), width(cv.Type())
+			if from == 0 || to == 0 {
+				return
+			}
+			r, ok := loadedField(cv.X)
+			if !ok || r.Owner == nil || r.Owner.Obj().Pkg() == nil || r.Owner.Obj().Pkg().Path() != modPath {
+				return
+			}
+			n++
+			key := fmt.Sprintf("%s: %s converted to %s#%d", fnKey(fn), r.String(), cv.Type().String(), countKey(c, rule, fmt.Sprintf("%s: %s converted to %s#", fnKey(fn), r.String(), cv.Type().String()))+1)
+			c.check(to >= from, rule, key, cv.Pos(), "not narrowed", fmt.Sprintf("%s (%d bits) is converted to %s (%d bits) before it is encoded: values above the narrower type's range are silently truncated on the wire", r.String(), from, cv.Type().String(), to))
+		})
+	}
+	if n == 0 {
+		c.okTrivial(rule, "no integer field of a public structure is converted in the encoders", token.NoPos, "0 conversions")
+	}
+}
+
+// ruleSelectedIsAuthenticated: RFC 9051 §3: the selected state is entered
+// from, and has every permission of, the authenticated state. A direct test of
+// Conn.state in the server that separates Authenticated from Selected (other
+// than checkState, which spells the sub-state relation out, and the places
+// that *set* the state) gives a selected connection less than an
+// authenticated one — e.g. a capability list that loses its post-login
+// capabilities once a mailbox is selected. For every branch on Conn.state the
+// target reached with state=Authenticated equals the one reached with
+// state=Selected.
+func ruleSelectedIsAuthenticated(c *Ctx, rule string) {
+	p := c.P
+	stateConst := func(name string) (int64, bool) {
+		if k, ok := p.Pkgs[modPath].Types.Scope().Lookup(name).(*types.Const); ok {
+			return constantInt(k)
+		}
+		return 0, false
+	}
+	auth, ok1 := stateConst("ConnStateAuthenticated")
+	sel, ok2 := stateConst("ConnStateSelected")
+	if !ok1 || !ok2 {
+		c.unresolvedRoot("imap.ConnStateAuthenticated / ConnStateSelected")
+		return
+	}
+	// decide a condition for a given state value; ok=false if it does not only depend on the state
+	var decide func(v ssa.Value, st int64) (bool, bool)
+	decide = func(v ssa.Value, st int64) (bool, bool) {
+		switch x := v.(type) {
+		case *ssa.BinOp:
+			if x.Op != token.EQL && x.Op != token.NEQ {
+				return false, false
+			}
+			var k int64
+			var isState bool
+			for _, pr := range [][2]ssa.Value{{x.X, x.Y}, {x.Y, x.X}} {
+				if r, ok := loadedField(pr[0]); ok && r.is("Conn", "state") {
+					if kk, ok := constInt(pr[1]); ok {
+						k, isState = kk, true
+					}
+				}
+			}
+			if !isState {
+				return false, false
+			}
+			return (st == k) == (x.Op == token.EQL), true
+		case *ssa.UnOp:
+			if x.Op == token.NOT {
+				b, ok := decide(x.X, st)
+				return !b, ok
+			}
+		}
+		return false, false
+	}
+	pureTest := func(b *ssa.BasicBlock) bool {
+		for _, i := range b.Instrs {
+			switch i.(type) {
+			case *ssa.FieldAddr, *ssa.UnOp, *ssa.BinOp, *ssa.If, *ssa.DebugRef:
+			default:
+				return false
+			}
+		}
+		return true
+	}
+	// does the chain starting at b mention the Authenticated constant?
+	mentionsAuth := func(b *ssa.BasicBlock) bool {
+		seen := map[*ssa.BasicBlock]bool{}
+		var rec func(x *ssa.BasicBlock) bool
+		rec = func(x *ssa.BasicBlock) bool {
+			if seen[x] || len(x.Instrs) == 0 {
+				return false
+			}
+			seen[x] = true
+			i2, ok := x.Instrs[len(x.Instrs)-1].(*ssa.If)
+			if !ok {
+				return false
+			}
+			if x != b && !pureTest(x) {
+				return false
+			}
+			if _, d := decide(i2.Cond, auth); !d {
+				return false
+			}
+			if bo, ok := i2.Cond.(*ssa.BinOp); ok {
+				for _, o := range []ssa.Value{bo.X, bo.Y} {
+					if k, ok := constInt(o); ok && k == auth {
+						return true
+					}
+				}
+			}
+			return rec(x.Succs[0]) || rec(x.Succs[1])
+		}
+		return rec(b)
+	}
+	n := 0
+	for _, fn := range p.SrcFuncs("imapserver") {
+		if fn.Name() == "checkState" {
+			continue
+		}
+		for _, b := range fn.Blocks {
+			if len(b.Instrs) == 0 {
+				continue
+			}
+			ifi, ok := b.Instrs[len(b.Instrs)-1].(*ssa.If)
+			if !ok {
+				continue
+			}
+			if _, dec := decide(ifi.Cond, auth); !dec {
+				continue
+			}
+			// a test of the Selected state alone is selected-specific behaviour
+			// (re-SELECT closes the old mailbox): only tests that name
+			// Authenticated are obliged to include Selected
+			if !mentionsAuth(b) {
+				continue
+			}
+			// only chain heads: a block whose predecessor is itself a decidable state test belongs to that chain
+			head := true
+			for _, pr := range b.Preds {
+				if len(pr.Instrs) > 0 {
+					if pi, ok := pr.Instrs[len(pr.Instrs)-1].(*ssa.If); ok {
+						if _, d := decide(pi.Cond, auth); d && pureTest(b) {
+							head = false
+						}
+					}
+				}
+			}
+			if !head {
+				continue
+			}
+			// walk follows the state test for one state value through blocks
+			// that only compute on the state (`a := st == X || st == Y; if !a`
+			// materialises the disjunction as a phi in a join block)
+			walk := func(st int64) *ssa.BasicBlock {
+				var prev *ssa.BasicBlock
+				cur := b
+				pureJoin := func(x *ssa.BasicBlock) bool {
+					for _, i := range x.Instrs {
+						switch i.(type) {
+						case *ssa.FieldAddr, *ssa.UnOp, *ssa.BinOp, *ssa.If, *ssa.DebugRef, *ssa.Phi, *ssa.Jump:
+						default:
+							return false
+						}
+					}
+					return true
+				}
+				var dec2 func(v ssa.Value) (bool, bool)
+				dec2 = func(v ssa.Value) (bool, bool) {
+					switch x := v.(type) {
+					case *ssa.Const:
+						if x.Value != nil && x.Value.Kind() == constant.Bool {
+							return constant.BoolVal(x.Value), true
+						}
+					case *ssa.Phi:
+						if x.Block() == cur && prev != nil {
+							for k, pr := range cur.Preds {
+								if pr == prev {
+									return dec2(x.Edges[k])
+								}
+							}
+						}
+						return false, false
+					case *ssa.UnOp:
+						if x.Op == token.NOT {
+							r, ok := dec2(x.X)
+							return !r, ok
+						}
+					}
+					return decide(v, st)
+				}
+				for k := 0; k < 16; k++ {
+					if len(cur.Instrs) == 0 {
+						return cur
+					}
+					if cur != b && !pureJoin(cur) {
+						return cur
+					}
+					switch i2 := cur.Instrs[len(cur.Instrs)-1].(type) {
+					case *ssa.If:
+						v, d := dec2(i2.Cond)
+						if !d {
+							return cur
+						}
+						prev = cur
+						if v {
+							cur = cur.Succs[0]
+						} else {
+							cur = cur.Succs[1]
+						}
+					case *ssa.Jump:
+						if cur == b {
+							return cur
+						}
+						// a pure block that merely jumps on: only a phi-join may follow
+						nx := cur.Succs[0]
+						hasPhi := false
+						if len(nx.Instrs) > 0 {
+							_, hasPhi = nx.Instrs[0].(*ssa.Phi)
+						}
+						if !hasPhi || !pureJoin(nx) {
+							return cur
+						}
+						prev, cur = cur, nx
+					default:
+						return cur
+					}
+				}
+				return cur
+			}
+			ta, ts := walk(auth), walk(sel)
+			n++
+			key := fmt.Sprintf("%s: state test#%d", fnKey(fn), countKey(c, rule, fnKey(fn)+": state test#")+1)
+			c.check(ta == ts, rule, key, condPos(ifi), "the authenticated and the selected state take the same branch",
+				"this test of the connection state sends an authenticated connection one way and a selected one another: a connection with a mailbox selected loses what it had as merely authenticated (e.g. its post-login capabilities)")
+		}
+	}
+	if n == 0 {
+		c.unresolvedRoot("direct tests of Conn.state in imapserver")
+	}
+}
+
+// ruleParseWidth: C03.m. A numeric field of 64-bit type in a public data
+// structure is filled, in the client's parsers, from a 64-bit reader
+// (ExpectNumber64 / ExpectModSeq): the server writes such fields with
+// Number64, and a 32-bit reader (ExpectNumber) refuses every value ≥ 2^32 —
+// a STATUS SIZE of a 5 GiB mailbox tears the connection down. Exceptions are
+// single fields whose wire grammar is a 32-bit number, listed with the reason.
+var parse32Exceptions = map[string]string{
+	"SectionPartial.Offset": "origin octet of a FETCH response: `\"<\" number \">\"`, a 32-bit number in RFC 3501/9051",
+}
+
+func ruleParseWidth(c *Ctx, rule string) {
+	p := c.P
+	n := 0
+	is64 := func(t types.Type) bool {
+		if pt, ok := t.Underlying().(*types.Pointer); ok {
+			t = pt.Elem()
+		}
+		bt, ok := t.Underlying().(*types.Basic)
+		return ok && (bt.Kind() == types.Int64 || bt.Kind() == types.Uint64)
+	}
+	// v derives (through widening conversions, loads of locals) from a cell filled by a 32-bit decoder reader
+	var from32 func(v ssa.Value, depth int) bool
+	from32 = func(v ssa.Value, depth int) bool {
+		if depth > 6 {
+			return false
+		}
+		switch x := v.(type) {
+		case *ssa.Convert:
+			return from32(x.X, depth+1)
+		case *ssa.ChangeType:
+			return from32(x.X, depth+1)
+		case *ssa.Alloc:
+			// &local handed as the value: what was stored in it
+			for _, ref := range *x.Referrers() {
+				if st, ok := ref.(*ssa.Store); ok && st.Addr == ssa.Value(x) && from32(st.Val, depth+1) {
+					return true
+				}
+				if call, ok := ref.(ssa.CallInstruction); ok && isDecoderMethodCall(call) {
+					switch calleeObj(call).Name() {
+					case "Number", "ExpectNumber":
+						if bt, ok := x.Type().Underlying().(*types.Pointer).Elem().Underlying().(*types.Basic); ok && bt.Kind() == types.Uint32 {
+							return true
+						}
+					}
+				}
+			}
+		case *ssa.UnOp:
+			if x.Op == token.MUL {
+				if al, ok := x.X.(*ssa.Alloc); ok {
+					return from32(al, depth+1)
+				}
+				// *ptr where ptr is the result of a helper returning *uint32 read from the wire
+				if call, ok := x.X.(*ssa.Extract); ok {
+					if cc, ok := call.Tuple.(*ssa.Call); ok {
+						if cal := staticCallee(cc); cal != nil && inModule(cal) {
+							for _, r := range returnsOf(cal) {
+								if call.Index < len(r.Results) && from32(unspill(r.Results[call.Index]), depth+1) {
+									return true
+								}
+							}
+						}
+					}
+				}
+			}
+		}
+		return false
+	}
+	for _, fn := range p.SrcFuncs("imapclient") {
+		allInstrs(fn, func(i ssa.Instruction) {
+			st, ok := i.(*ssa.Store)
+			if !ok {
+				return
+			}
+			r, ok := fieldOf(st.Addr)
+			if !ok || r.Owner == nil || r.Owner.Obj().Pkg() == nil || r.Owner.Obj().Pkg().Path() != modPath || !is64(r.Field.Type()) {
+				return
+			}
+			n++
+			key := fmt.Sprintf("%s: %s#%d", fnKey(fn), r.String(), countKey(c, rule, fnKey(fn)+": "+r.String()+"#")+1)
+			if !from32(st.Val, 0) {
+				c.ok(rule, key, st.Pos(), "not filled from a 32-bit reader")
+				return
+			}
+			if why, ok := parse32Exceptions[r.String()]; ok {
+				c.okTrivial(rule, key, st.Pos(), "32-bit by grammar: "+why)
+				return
+			}
+			c.fail(rule, key, st.Pos(), r.String()+" is a 64-bit field but is parsed with a 32-bit number reader: the peer writes it with Number64, and every value of 2^32 or more is refused (the response fails and the connection is torn down)")
+		})
+	}
+	if n == 0 {
+		c.unresolvedRoot("stores into 64-bit numeric fields in the client's parsers")
+	}
+}
+
+// ruleRecursiveCriteriaCoverage: a function that walks a SearchCriteria
+// recursively descends into *every* recursive field of the type (Not and Or):
+// resolving '*', checking ASCII-ness or matching only under NOT and not under
+// OR leaves the OR operands unprocessed.
+func ruleRecursiveCriteriaCoverage(c *Ctx, rule string) {
+	p := c.P
+	sc := p.Named("", "SearchCriteria")
+	if sc == nil {
+		c.unresolvedRoot("imap.SearchCriteria")
+		return
+	}
+	st := sc.Underlying().(*types.Struct)
+	// recursive fields: those whose type mentions SearchCriteria
+	var recFields []string
+	for i := 0; i < st.NumFields(); i++ {
+		if strings.Contains(st.Field(i).Type().String(), "SearchCriteria") && st.Field(i).Type().String() != sc.String() {
+			if !strings.Contains(st.Field(i).Type().String(), "SearchCriteriaHeaderField") && !strings.Contains(st.Field(i).Type().String(), "SearchCriteriaModSeq") && !strings.Contains(st.Field(i).Type().String(), "SearchCriteriaMetadataType") {
+				recFields = append(recFields, st.Field(i).Name())
+			}
+		}
+	}
+	if len(recFields) < 2 {
+		c.unresolvedRoot("recursive fields of imap.SearchCriteria")
+		return
+	}
+	n := 0
+	for _, fn := range p.SrcFuncs("", "imapclient", "imapserver", "imapserver/imapmemserver") {
+		if fn.Parent() != nil {
+			continue
+		}
+		visited := map[string]bool{}
+		selfRec := false
+		for _, g := range withAnon(fn) {
+			allInstrs(g, func(i ssa.Instruction) {
+				call, ok := i.(ssa.CallInstruction)
+				if !ok || staticCallee(call) != fn {
+					return
+				}
+				for _, a := range call.Common().Args {
+					// the argument derives from a field of a SearchCriteria
+					seen := map[ssa.Value]bool{}
+					var rec func(v ssa.Value)
+					rec = func(v ssa.Value) {
+						if v == nil || seen[v] {
+							return
+						}
+						seen[v] = true
+						switch x := v.(type) {
+						case *ssa.FieldAddr:
+							if r, ok := fieldOf(x); ok && r.Owner == sc {
+								visited[r.Field.Name()] = true
+								selfRec = true
+							}
+							rec(x.X)
+						case *ssa.Field:
+							if r, ok := fieldOf(x); ok && r.Owner == sc {
+								visited[r.Field.Name()] = true
+								selfRec = true
+							}
+							rec(x.X)
+						case *ssa.IndexAddr:
+							rec(x.X)
+						case *ssa.Index:
+							rec(x.X)
+						case *ssa.UnOp:
+							rec(x.X)
+						case *ssa.Slice:
+							rec(x.X)
+						case *ssa.Phi:
+							for _, e := range x.Edges {
+								rec(e)
+							}
+						case *ssa.Extract:
+							rec(x.Tuple)
+						case *ssa.Next:
+							rec(x.Iter)
+						case *ssa.Range:
+							rec(x.X)
+						case *ssa.Alloc:
+							for _, ref := range *x.Referrers() {
+								if s2, ok := ref.(*ssa.Store); ok && s2.Addr == ssa.Value(x) {
+									rec(s2.Val)
+								}
+							}
+						}
+					}
+					rec(a)
+				}
+			})
+		}
+		if !selfRec {
+			continue
+		}
+		n++
+		var missing []string
+		for _, f := range recFields {
+			if !visited[f] {
+				missing = append(missing, f)
+			}
+		}
+		c.check(len(missing) == 0, rule, fnKey(fn)+": recursive walk covers "+strings.Join(recFields, ","), fn.Pos(), "recurses into every recursive field",
+			"this recursive walk of a SearchCriteria does not descend into "+strings.Join(missing, ",")+": keys nested there are left unprocessed ('*' unresolved, UTF-8 undetected, …)")
+	}
+	if n == 0 {
+		c.unresolvedRoot("recursive walks of imap.SearchCriteria")
+	}
+}
+
+// ruleExpungeOrder: C08.j. Every removal is announced with the sequence
+// number the message has *at the moment of the announcement*. When several
+// messages are removed in one pass and numbered by their index in the
+// original list, the announcements must go out in descending index order
+// (each EXPUNGE then leaves the lower numbers untouched), or the number must
+// be corrected by the count of earlier removals. In every loop that calls
+// QueueExpunge with a number derived from the loop index, the index
+// decreases, or the argument subtracts a counter that the loop increments.
+func ruleExpungeOrder(c *Ctx, rule string) {
+	p := c.P
+	n := 0
+	for _, fn := range p.SrcFuncs("imapserver/imapmemserver") {
+		allInstrs(fn, func(i ssa.Instruction) {
+			call, ok := i.(*ssa.Call)
+			if !ok || callKey(call) != "(*MailboxTracker).QueueExpunge" || !reaches2(call.Block(), call.Block()) {
+				return
+			}
+			// phis the argument depends on
+			var phis []*ssa.Phi
+			subtractsCounter := false
+			seen := map[ssa.Value]bool{}
+			var rec func(v ssa.Value)
+			rec = func(v ssa.Value) {
+				if v == nil || seen[v] {
+					return
+				}
+				seen[v] = true
+				switch x := v.(type) {
+				case *ssa.Phi:
+					phis = append(phis, x)
+				case *ssa.Convert:
+					rec(x.X)
+				case *ssa.BinOp:
+					if x.Op == token.SUB {
+						if ph, ok := x.Y.(*ssa.Phi); ok {
+							// a counter: incremented somewhere in the loop
+							for _, e := range ph.Edges {
+								if add, ok := e.(*ssa.BinOp); ok && add.Op == token.ADD {
+									subtractsCounter = true
+								}
+								if p2, ok := e.(*ssa.Phi); ok {
+									for _, e2 := range p2.Edges {
+										if add, ok := e2.(*ssa.BinOp); ok && add.Op == token.ADD {
+											subtractsCounter = true
+										}
+									}
+								}
+							}
+						}
+					}
+					rec(x.X)
+					rec(x.Y)
+				}
+			}
+			rec(call.Call.Args[1])
+			if len(phis) == 0 {
+				return
+			}
+			n++
+			descending := false
+			for _, ph := range phis {
+				for k, e := range ph.Edges {
+					if !ph.Block().Dominates(ph.Block().Preds[k]) {
+						continue // entry edge
+					}
+					if bo, ok := e.(*ssa.BinOp); ok && bo.X == ssa.Value(ph) {
+						if kk, ok := constInt(bo.Y); ok && (bo.Op == token.SUB && kk > 0 || bo.Op == token.ADD && kk < 0) {
+							descending = true
+						}
+					}
+				}
+			}
+			c.check(descending || subtractsCounter, rule, fnKey(fn)+": removals announced in descending order (or renumbered)", call.Pos(), "the loop index decreases / the number is corrected by the removals so far",
+				"several messages are removed in one ascending pass and each is announced with its index in the original list: after the first EXPUNGE the later numbers are off by the removals before them — sessions expunge the wrong messages or numbers beyond the count")
+		})
+	}
+	if n == 0 {
+		c.unresolvedRoot("QueueExpunge calls in a loop over the message list")
+	}
+}
+
+// ruleQueueHandOver: C08.k. SessionTracker.Poll hands the dequeued updates to
+// the writer *outside* the tracker lock. The live queue must therefore not
+// keep sharing a backing array with what was handed out: after `updates =
+// t.queue` the field is set to nil (or to a slice that does not alias the
+// prefix handed out); `t.queue = t.queue[:0]` lets a concurrent queueUpdate
+// overwrite updates that are still being written.
+func ruleQueueHandOver(c *Ctx, rule string) {
+	p := c.P
+	poll := p.Func("imapserver", "SessionTracker", "Poll")
+	if poll == nil {
+		c.unresolvedRoot("(*SessionTracker).Poll")
+		return
+	}
+	n := 0
+	for _, g := range helperClosure(poll, 2) {
+		allInstrs(g, func(i ssa.Instruction) {
+			st, ok := i.(*ssa.Store)
+			if !ok {
+				return
+			}
+			r, ok := fieldOf(st.Addr)
+			if !ok || !r.is("SessionTracker", "queue") {
+				return
+			}
+			n++
+			key := fmt.Sprintf("%s: store to the live queue#%d", fnKey(g), n)
+			sl, isSlice := st.Val.(*ssa.Slice)
+			if !isSlice {
+				c.ok(rule, key, st.Pos(), "nil or a fresh slice")
+				return
+			}
+			lr, fromQueue := loadedField(sl.X)
+			if !fromQueue || !lr.is("SessionTracker", "queue") {
+				c.ok(rule, key, st.Pos(), "not a re-slice of the queue")
+				return
+			}
+			// a suffix (queue[k:]) does not alias the prefix handed out; a prefix / zero-length re-slice does
+			keepsStart := sl.Low == nil
+			if k, ok := sl.Low.(*ssa.Const); ok && k.Value != nil && k.Value.String() == "0" {
+				keepsStart = true
+			}
+			c.check(!keepsStart, rule, key, st.Pos(), "a suffix of the old queue: disjoint from the updates handed out",
+				"the live queue is re-sliced from the start of the array whose elements were just handed to the writer: updates queued by another session overwrite them while they are being written (lost or duplicated EXPUNGE/EXISTS)")
+		})
+	}
+	if n == 0 {
+		c.unresolvedRoot("stores to SessionTracker.queue in Poll")
+	}
+}
+
+// ruleFirstErrorWins: C10.l. Merging the outcomes of several sub-commands
+// ("first error wins") assigns a later error to the accumulator only while
+// the accumulator is still nil. An assignment `err = other` that sits on the
+// `err != nil` edge does the opposite: it throws the first error away and,
+// when there was none, drops the later one — the caller is told "success"
+// for a command whose completion failed or never arrived. Reported: a store
+// into a local error variable, guarded by a non-nil test of that same
+// variable, of a value that does not depend on it (wrapping the old error is
+// fine).
+func ruleFirstErrorWins(c *Ctx, rule string, pkgs ...string) {
+	p := c.P
+	n := 0
+	for _, fn := range p.SrcFuncs(pkgs...) {
+		var flow *mustResult
+		allInstrs(fn, func(i ssa.Instruction) {
+			st, ok := i.(*ssa.Store)
+			if !ok {
+				return
+			}
+			cell, ok := st.Addr.(*ssa.Alloc)
+			if !ok || !isErrorType(cell.Type().Underlying().(*types.Pointer).Elem()) || isNilConst(st.Val) {
+				return
+			}
+			if flow == nil {
+				flow = mustFlow(fn, facts{}, valueGen, func(f facts, b *ssa.BasicBlock, s int) facts { return f.with(valueEdgeFacts(b, s)...) })
+			}
+			fs, reach := flow.at(st)
+			if !reach {
+				return
+			}
+			if !fs.has("nonnil:cell:"+cell.Name()) && !fs.has("nil:cell:"+cell.Name()) {
+				return // not a guarded merge
+			}
+			n++
+			key := fmt.Sprintf("%s: %s merged#%d", fnKey(fn), cell.Comment, countKey(c, rule, fmt.Sprintf("%s: %s merged#", fnKey(fn), cell.Comment))+1)
+			if fs.has("nil:cell:" + cell.Name()) {
+				c.ok(rule, key, st.Pos(), "assigned while still nil: the first error wins")
+				return
+			}
+			// depends on the old value?
+			dep := false
+			seen := map[ssa.Value]bool{}
+			var rec func(v ssa.Value)
+			rec = func(v ssa.Value) {
+				if v == nil || seen[v] || dep {
+					return
+				}
+				seen[v] = true
+				if ld, ok := v.(*ssa.UnOp); ok && ld.X == ssa.Value(cell) {
+					dep = true
+					return
+				}
+				if ins, ok := v.(ssa.Instruction); ok {
+					for _, op := range ins.Operands(nil) {
+						if *op != nil {
+							rec(*op)
+						}
+					}
+				}
+			}
+			rec(st.Val)
+			c.check(dep, rule, key, st.Pos(), "wraps the existing error",
+				"the error variable "+cell.Comment+" is overwritten with an unrelated value on the edge where it is already non-nil (and left alone where it is nil): the first failure is lost and a later failure of a sub-command is not reported — the caller sees success")
+		})
+	}
+	// the same merge on a variable that lives in registers: a phi [old, other]
+	// whose `other` edge comes from the branch taken when old != nil
+	for _, fn := range p.SrcFuncs(pkgs...) {
+		for _, b := range fn.Blocks {
+			for _, i := range b.Instrs {
+				ph, ok := i.(*ssa.Phi)
+				if !ok || !isErrorType(ph.Type()) || len(ph.Edges) < 2 {
+					continue
+				}
+				olds := map[ssa.Value]bool{}
+				for _, e := range ph.Edges {
+					olds[e] = true
+				}
+				for k, other := range ph.Edges {
+					via := b.Preds[k]
+					// the branch that decides whether `other` is taken: the nearest
+					// dominator of via that ends in an If with via in exactly one arm
+					var from *ssa.BasicBlock
+					si := -1
+					for d := via; d != nil && from == nil; d = d.Idom() {
+						var dd *ssa.BasicBlock
+						if d == via {
+							if len(via.Preds) == 1 {
+								dd = via.Preds[0]
+							} else {
+								continue
+							}
+						} else {
+							dd = d
+						}
+						if len(dd.Succs) != 2 {
+							continue
+						}
+						in0 := dd.Succs[0] == via || (dd.Succs[0].Dominates(via) && dd.Succs[0] != b)
+						in1 := dd.Succs[1] == via || (dd.Succs[1].Dominates(via) && dd.Succs[1] != b)
+						if in0 != in1 {
+							from = dd
+							if in0 {
+								si = 0
+							} else {
+								si = 1
+							}
+						}
+						break
+					}
+					if from == nil {
+						continue
+					}
+					pol := 0
+					var old ssa.Value
+					for _, a := range edgeAtoms(from, si) {
+						if olds[a.V] && a.V != other && a.Nil != 0 {
+							pol, old = a.Nil, a.V
+						}
+					}
+					if pol == 0 {
+						continue
+					}
+					n++
+					key := fmt.Sprintf("%s: %s merged#%d", fnKey(fn), ph.Comment, countKey(c, rule, fmt.Sprintf("%s: %s merged#", fnKey(fn), ph.Comment))+1)
+					if pol == 1 {
+						c.ok(rule, key, ph.Pos(), "assigned while still nil: the first error wins")
+						continue
+					}
+					dep := false
+					seen := map[ssa.Value]bool{}
+					var rec func(v ssa.Value)
+					rec = func(v ssa.Value) {
+						if v == nil || seen[v] || dep {
+							return
+						}
+						seen[v] = true
+						if v == old {
+							dep = true
+							return
+						}
+						if ins, ok := v.(ssa.Instruction); ok {
+							for _, op := range ins.Operands(nil) {
+								if *op != nil {
+									rec(*op)
+								}
+							}
+						}
+					}
+					rec(other)
+					pos := ph.Pos()
+					for k := len(from.Instrs) - 1; k >= 0; k-- {
+						if ip := from.Instrs[k].Pos(); ip.IsValid() {
+							pos = ip
+							break
+						}
+					}
+					if !pos.IsValid() && other.Pos().IsValid() {
+						pos = other.Pos()
+					}
+					c.check(dep, rule, key, pos, "wraps the existing error",
+						"the error variable "+ph.Comment+" is overwritten with an unrelated value on the edge where it is already non-nil (and left alone where it is nil): the first failure is lost and a later failure of a sub-command is not reported — the caller sees success")
+				}
+			}
+		}
+	}
+	if n == 0 {
+		c.okTrivial(rule, "no guarded error merge in "+strings.Join(pkgs, ","), token.NoPos, "0 sites")
+	}
+}
+
+// ruleParseLoopProgress: C11.k. Every round of a parsing loop consumes input
+// or leaves the loop. Decoder methods that can report success without having
+// consumed a byte (SP() peeks at '(' and un-reads it) are computed from the
+// byte-level typestate; a *failed* read consumes nothing either. If, from the
+// failure edge of a decoder read inside a loop, control can get back to that
+// same read passing only through such non-consuming successes, the peer can
+// pin the reader goroutine in a busy loop with a few bytes.
+func ruleParseLoopProgress(c *Ctx, rule string, pkgs ...string) {
+	p := c.P
+	// ncs: decoder methods that may return true with zero net consumption
+	ncs := map[*ssa.Function]bool{}
+	decMethods := []*ssa.Function{}
+	for _, fn := range p.SrcFuncs("internal/imapwire") {
+		if fn.Signature.Recv() != nil && strings.HasSuffix(fn.Signature.Recv().Type().String(), "imapwire.Decoder") && fn.Parent() == nil {
+			decMethods = append(decMethods, fn)
+		}
+	}
+	boolResult := func(fn *ssa.Function) bool {
+		r := fn.Signature.Results()
+		if r.Len() == 0 {
+			return false
+		}
+		bt, ok := r.At(r.Len() - 1).Type().Underlying().(*types.Basic)
+		return ok && bt.Kind() == types.Bool
+	}
+	for changed := true; changed; {
+		changed = false
+		for _, fn := range decMethods {
+			if ncs[fn] || !boolResult(fn) {
+				continue
+			}
+			flow := mustFlow(fn, facts{}, func(f facts, i ssa.Instruction) facts {
+				call, ok := i.(*ssa.Call)
+				if !ok {
+					return f
+				}
+				if callKey(call) == "(*Decoder).mustUnreadByte" {
+					return f.without(func(s string) bool { return s == "consumed" })
+				}
+				return f
+			}, func(f facts, b *ssa.BasicBlock, s int) facts {
+				for _, a := range edgeAtoms(b, s) {
+					call, idx := callOf(a.V)
+					if call == nil || !(a.True == 1) {
+						continue
+					}
+					k := callKey(call)
+					if k == "(*Decoder).readByte" && idx == 1 {
+						return f.with("consumed")
+					}
+					if cal := staticCallee(call); cal != nil && isDecoderMethodCall(call) && boolResult(cal) && !ncs[cal] && k != "(*Decoder).readByte" && k != "(*Decoder).Expect" && k != "(*Decoder).returnErr" {
+						return f.with("consumed")
+					}
+				}
+				return f
+			})
+			may := false
+			for _, r := range returnsOf(fn) {
+				f, ok := flow.at(r)
+				if !ok || len(r.Results) == 0 {
+					continue
+				}
+				v := unspill(r.Results[len(r.Results)-1])
+				if k, isC := v.(*ssa.Const); isC && k.Value != nil && k.Value.String() == "false" {
+					continue
+				}
+				// `return dec.X(...)`: success means X succeeded
+				if call, ok := v.(*ssa.Call); ok {
+					if cal := staticCallee(call); cal != nil && isDecoderMethodCall(call) && !ncs[cal] && callKey(call) != "(*Decoder).Expect" {
+						continue
+					}
+					if callKey(call) == "(*Decoder).Expect" {
+						// Expect(ok, …): ok is the first argument
+						if c0, ok := call.Call.Args[1].(*ssa.Call); ok {
+							if cal := staticCallee(c0); cal != nil && isDecoderMethodCall(c0) && !ncs[cal] {
+								continue
+							}
+						}
+					}
+				}
+				if !f.has("consumed") {
+					may = true
+				}
+			}
+			if may {
+				ncs[fn] = true
+				changed = true
+			}
+		}
+	}
+	// The must-analysis above over-approximates (it cannot relate "the loop
+	// ran at least once" to "the builder is non-empty"), so it only *confirms*
+	// the methods that were found to peek by reading the decoder: SP (returns
+	// true in front of '(' after un-reading it, go-imap issue 571) and EOF.
+	// A method is treated as non-consuming only if it is in this table and the
+	// analysis still agrees.
+	peeking := map[string]string{
+		"(*Decoder).SP":  "true in front of '(' without consuming it",
+		"(*Decoder).EOF": "peeks one byte and un-reads it",
+	}
+	for f := range ncs {
+		if _, ok := peeking[fnKey(f)]; !ok {
+			delete(ncs, f)
+		}
+	}
+	var names []string
+	for f := range ncs {
+		names = append(names, fnKey(f)+" ("+peeking[fnKey(f)]+")")
+	}
+	sort.Strings(names)
+	c.note("decoder methods that can succeed without consuming input: %s", strings.Join(names, ", "))
+	n := 0
+	for _, fn := range p.SrcFuncs(pkgs...) {
+		for _, g := range []*ssa.Function{fn} {
+			allInstrs(g, func(i ssa.Instruction) {
+				call, ok := i.(*ssa.Call)
+				if !ok || !isDecoderMethodCall(call) || !reaches2(call.Block(), call.Block()) {
+					return
+				}
+				cal := staticCallee(call)
+				if cal == nil || !boolResult(cal) || callKey(call) == "(*Decoder).Expect" {
+					return
+				}
+				// failure edges of this call
+				for _, b := range g.Blocks {
+					for si := range b.Succs {
+						isFail := false
+						for _, fc := range failureCalls(b, si) {
+							if fc == ssa.CallInstruction(call) {
+								isFail = true
+							}
+						}
+						if !isFail {
+							continue
+						}
+						n++
+						// search: back to call.Block() through non-consuming blocks only
+						seen := map[*ssa.BasicBlock]bool{}
+						var spin func(x *ssa.BasicBlock) bool
+						spin = func(x *ssa.BasicBlock) bool {
+							if x == call.Block() {
+								return true
+							}
+							if seen[x] {
+								return false
+							}
+							seen[x] = true
+							// a block with a consuming decoder call stops the search; with a
+							// non-consuming-success call only its success edge continues freely
+							for _, j := range x.Instrs {
+								if c2, ok := j.(*ssa.Call); ok && isDecoderMethodCall(c2) {
+									k2 := callKey(c2)
+									if k2 == "(*Decoder).Err" || k2 == "(*Decoder).Expect" || k2 == "(*Decoder).returnErr" {
+										continue
+									}
+									if cal2 := staticCallee(c2); cal2 == nil || !ncs[cal2] {
+										return false
+									}
+								} else if c2, ok := j.(*ssa.Call); ok {
+									// any other module call may consume (helpers that parse)
+									if cal2 := staticCallee(c2); cal2 != nil && inModule(cal2) && cal2.Blocks != nil {
+										consumes := false
+										deepInstrs(cal2, 2, func(q ssa.Instruction) {
+											if c3, ok := q.(*ssa.Call); ok && isDecoderMethodCall(c3) {
+												consumes = true
+											}
+										})
+										if consumes {
+											return false
+										}
+									}
+								}
+							}
+							for _, s := range x.Succs {
+								if spin(s) {
+									return true
+								}
+							}
+							return false
+						}
+						key := fmt.Sprintf("%s: failed %s leaves the loop or tries something that consumes#%d", fnKey(g), cal.Name(), countKey(c, rule, fmt.Sprintf("%s: failed %s leaves the loop or tries something that consumes#", fnKey(g), cal.Name()))+1)
+						c.check(!spin(b.Succs[si]), rule, key, call.Pos(), "no input-free way back to this read",
+							"after this read fails control can return to it without any read that consumes input (only peeking reads such as SP in between): a response containing an unexpected byte here makes the reader goroutine spin for ever on a few bytes")
+					}
+				}
+			})
+		}
+	}
+	if n == 0 {
+		c.unresolvedRoot("decoder reads inside parsing loops of " + strings.Join(pkgs, ","))
+	}
+}
+
+// ruleGuardedRefEscapes: C14.e. A guarded field of map or slice type is a
+// reference: copying it into a local under the lock copies the reference, not
+// the data. Ranging over, indexing or updating that local after the lock was
+// released is an unlocked access to the guarded data (concurrent map
+// iteration and map write). Every use of a value loaded from a guarded
+// map/slice field happens with the guarding lock held.
+func ruleGuardedRefEscapes(c *Ctx, rule string, la *lockAnalysis, guards map[*types.Var]*guardInfo, pkgs ...string) {
+	p := c.P
+	n := 0
+	for _, fn := range p.SrcFuncs(pkgs...) {
+		allInstrs(fn, func(i ssa.Instruction) {
+			ld, ok := i.(*ssa.UnOp)
+			if !ok || ld.Op != token.MUL {
+				return
+			}
+			r, ok := loadedField(ld)
+			if !ok {
+				return
+			}
+			g := guards[r.Field]
+			if g == nil {
+				return
+			}
+			switch r.Field.Type().Underlying().(type) {
+			case *types.Map, *types.Slice:
+			default:
+				return
+			}
+			if isFreshLocal(r.Base) {
+				return
+			}
+			hl, reach := la.heldAt(ld)
+			if !reach || !hl.hasClass(g.class) {
+				return // the unlocked load itself is C14.b's business
+			}
+			// ownership transfer: the field is overwritten after this load in the
+			// same function (updates = t.queue; t.queue = nil): the local then owns
+			// what it loaded (that the new field value does not alias it is C08.k)
+			moved := false
+			allInstrs(fn, func(j ssa.Instruction) {
+				if st, ok := j.(*ssa.Store); ok {
+					if r2, ok := fieldOf(st.Addr); ok && r2.Field == r.Field && st.Val != ssa.Value(ld) {
+						if ld.Block().Dominates(st.Block()) && (ld.Block() != st.Block() || precedes(ld, st)) {
+							if hs, ok := la.heldAt(st); ok && hs.hasClass(g.class) {
+								moved = true
+							}
+						}
+					}
+				}
+			})
+			if moved {
+				return
+			}
+			// uses of the loaded reference that read or write the shared data
+			seen := map[ssa.Value]bool{}
+			var uses func(v ssa.Value)
+			uses = func(v ssa.Value) {
+				if seen[v] {
+					return
+				}
+				seen[v] = true
+				refs := v.Referrers()
+				if refs == nil {
+					return
+				}
+				for _, u := range *refs {
+					touch := false
+					switch x := u.(type) {
+					case *ssa.Range, *ssa.Lookup, *ssa.MapUpdate, *ssa.IndexAddr, *ssa.Index:
+						touch = true
+					case *ssa.Phi:
+						uses(x)
+					case *ssa.Store:
+						// stored into a local cell: follow its loads
+						if al, ok := x.Addr.(*ssa.Alloc); ok && x.Val == v {
+							for _, r2 := range *al.Referrers() {
+								if l2, ok := r2.(*ssa.UnOp); ok && l2.Op == token.MUL {
+									uses(l2)
+								}
+							}
+						}
+					}
+					if !touch {
+						continue
+					}
+					n++
+					hu, reachU := la.heldAt(u)
+					if !reachU {
+						continue
+					}
+					key := fmt.Sprintf("%s: use of %s#%d", fnKey(fn), r.String(), countKey(c, rule, fmt.Sprintf("%s: use of %s#", fnKey(fn), r.String()))+1)
+					c.check(hu.hasClass(g.class) || hu["~"+g.class] != "", rule, key, u.Pos(), "the guarding lock is still held at the use",
+						"the reference loaded from the guarded field "+r.String()+" is used after "+short(g.class)+" was released: ranging/indexing it races with writers of the field (concurrent map iteration and map write)")
+				}
+			}
+			uses(ld)
+		})
+	}
+	if n == 0 {
+		c.unresolvedRoot("uses of guarded map/slice fields")
+	}
+}
+
+// ruleCapsInvalidation: the client's cached capability list is what it
+// believes the server supports; it decides literal forms and UTF-8 quoting.
+// (1) C17.f / C18.i: a successful STARTTLS, LOGIN, AUTHENTICATE or
+// UNAUTHENTICATE leads to setCaps(nil) — capabilities learnt in plaintext
+// (or before authentication) are not kept (RFC 9051 §6.2.1, §7.2.2).
+// (2) C18.i: setCaps stores its argument unconditionally: "keep the old list
+// while the refresh is in flight" means emitting syntax the server may no
+// longer accept.
+func ruleCapsInvalidation(c *Ctx, rule string, want []string) {
+	p := c.P
+	setCaps := p.Func("imapclient", "Client", "setCaps")
+	if setCaps == nil {
+		c.unresolvedRoot("(*Client).setCaps")
+		return
+	}
+	// (1)
+	got := map[string]bool{}
+	var pos token.Pos
+	n := 0
+	for _, site := range callSitesOf(p, setCaps) {
+		if len(site.Common().Args) < 2 || !isNilConst(site.Common().Args[1]) {
+			continue
+		}
+		n++
+		for _, t := range caseTypesReaching(site.Block()) {
+			got[t] = true
+		}
+		pos = site.Pos()
+	}
+	if n == 0 {
+		c.unresolvedRoot("setCaps(nil) call sites")
+	} else {
+		var missing []string
+		for _, w := range want {
+			if !got[w] {
+				missing = append(missing, w)
+			}
+		}
+		c.check(len(missing) == 0, rule, "capabilities invalidated after "+strings.Join(want, ", "), pos, "setCaps(nil) is reached in the case of each of these command types",
+			"the cached capability list is not invalidated on completion of "+strings.Join(missing, ", ")+": capabilities learnt before (in plaintext, or for the other authentication state) keep steering what the client sends")
+	}
+	// (2)
+	var store *ssa.Store
+	allInstrs(setCaps, func(i ssa.Instruction) {
+		if st, ok := i.(*ssa.Store); ok {
+			if r, ok := fieldOf(st.Addr); ok && r.is("Client", "caps") {
+				store = st
+			}
+		}
+	})
+	if store == nil {
+		c.unresolvedRoot("store to Client.caps in setCaps")
+		return
+	}
+	uncond := true
+	for _, r := range returnsOf(setCaps) {
+		if !store.Block().Dominates(r.Block()) {
+			uncond = false
+		}
+	}
+	fromParam := len(setCaps.Params) == 2 && (store.Val == ssa.Value(setCaps.Params[1]) || paramOf(store.Val) == setCaps.Params[1])
+	c.check(uncond && fromParam, rule, "setCaps stores its argument unconditionally", store.Pos(), "c.caps = caps on every path",
+		"setCaps does not always replace the cached list by its argument (e.g. it keeps the old list when asked to invalidate): the encoder keeps using LITERAL+/UTF-8 forms the server stopped advertising")
 }
